@@ -241,6 +241,10 @@ MonotoneCall(b, r) ==
     /\ r.p.ci \in {b.ci, b.ci + 1}
     /\ (r.p.ci = b.ci + 1 => r.p.ch = b.ch + 1)
     /\ r.p.sl = b.sl
+    \* CurrINF moves exactly when CurrHF crosses into another segment of the segment table
+    /\ LET s0 == SegIndex(b.sl, b.ch).seg
+           s1 == SegIndex(b.sl, r.p.ch).seg IN
+       (r.p.ch # b.ch /\ s1 # -1) => ((r.p.ci = b.ci + 1) <=> (s1 # s0))
 \* an egress call that does not fail is a forward step: strictly larger CurrHF
 EgressForward(b, r) == r.k # "err" => r.p.ch = b.ch + 1
 \* an ingress call that asks for forwarding out of the *next* segment has moved both pointers
